@@ -41,7 +41,9 @@ class TD:
     __slots__ = ("s",)
 
     def __init__(self, seconds):
-        self.s = Fraction(seconds)
+        # datetime.timedelta has microsecond resolution: every constructed or computed timedelta is rounded
+        # (round-half-even, as CPython does) to a whole number of microseconds
+        self.s = Fraction(round(Fraction(seconds) * 10 ** 6), 10 ** 6)
 
     # CPython normalisation: 0 <= seconds < 86400, 0 <= microseconds < 10**6, days carries the sign
     @property
